@@ -1,6 +1,7 @@
 import Driver.Util
 import TorrentVerif.Model.PieceLength
 import TorrentVerif.Model.Effects
+import TorrentVerif.Model.Options
 /-
   Driver commands of group G5 (C12 piece length, C20 option routing, C17/C18 effects).
 
@@ -27,6 +28,25 @@ import TorrentVerif.Model.Effects
   ops recheck|info|magnet <metafile-hex> <payload path hex>...
         operation rendering, space separated: `read:<p>` `create:<p>` `write:<p>` `touch:<p>`
         `replace:<src>:<dst>` `remove:<p>` with paths in hex; empty list = `-`
+
+  argparse <token-hex>...          Impl.argparse Impl.createTable, then Impl.toKwargs
+        → `kw <record>` | `err` (argparse exits with an error) | `unsupported` (token class outside the model)
+  parseconfig <key-hex>=<value-hex>... [@ <token-hex>...]
+        Impl.parseConfig on top of the namespace of the tokens after `@` (none = defaults) → same
+  clirec <existing path hex, comma separated | -> <token-hex>...
+        argparse → toKwargs → Impl.metaInit with `exists p := p ∈ list`
+        → `kw <record>` | `err` | `unsupported` | `err:missingpath` | `err:typeerror`
+  cfgrec <existing,…|-> <key-hex>=<value-hex>... @ <token-hex>...     same through parseConfig
+  fields <content size> <cwd-hex> <name-hex> <existing,…|-> <token-hex>...
+        … → Impl.fields → `<field-hex>=<value> ...` | `err:piecelength` | (errors as above)
+  tableok p:<dest-hex> o:<dest-hex>:<0|1|+>:<default value>:<choice-hex,…|->:<flag-hex,…> ...
+        Impl.tableOK on the transmitted table → `ok same` | `ok differs` | `fail same|differs`
+        (`same` = equal to the built-in Impl.createTable)
+        record rendering (one line, fixed order):
+          path=<v> content=<v> announce=<v> url_list=<v> httpseeds=<v> private=<v> source=<v>
+          comment=<v> piece_length=<v> meta_version=<v> outfile=<v> align=<v>
+        value rendering <v>: `N` (None) | `T` | `F` | `s:<hex>` | `l:<hex>,<hex>…` (`l:` = [])
+        field values: `i:<int>` | <v> | `t:<v>;<v>…` (list of tiers)
 -/
 open TorrentVerif Drv
 
@@ -83,6 +103,85 @@ def editView (old new : Bytes) : Option FS → String
       | some c => s!"part:{hexOfBytes c}"
     let c := if s.get "x" = some bystander then "by:ok" else "by:changed"
     s!"{a} {b} {c}"
+
+def valStr : Val → String
+  | .none => "N"
+  | .bool true => "T"
+  | .bool false => "F"
+  | .str s => s!"s:{hexStr s}"
+  | .list l => "l:" ++ ",".intercalate (l.map hexStr)
+
+def kwStr (k : Kwargs) : String :=
+  s!"path={valStr k.path} content={valStr k.content} announce={valStr k.announce} " ++
+  s!"url_list={valStr k.urlList} httpseeds={valStr k.httpseeds} private={valStr k.private_} " ++
+  s!"source={valStr k.source} comment={valStr k.comment} piece_length={valStr k.pieceLength} " ++
+  s!"meta_version={valStr k.metaVersion} outfile={valStr k.outfile} align={valStr k.align}"
+
+def fvStr : Impl.FieldVal → String
+  | .int i => s!"i:{i}"
+  | .val v => valStr v
+  | .tiers l => "t:" ++ ";".intercalate (l.map valStr)
+
+def argErrStr : ArgErr → String
+  | .unsupported => "unsupported"
+  | _ => "err"
+
+def metaErrStr : MetaErr → String
+  | .missingPath => "err:missingpath"
+  | .typeError => "err:typeerror"
+  | .pieceLength => "err:piecelength"
+
+def pairTok (s : String) : Except String (String × String) :=
+  match s.splitOn "=" with
+  | [k, v] => do .ok ((← strTok k), (← strTok v))
+  | _ => .error s!"bad-pair:{s}"
+
+def existsTok (s : String) : Except String (String → Bool) :=
+  if s = "-" then .ok (fun _ => false)
+  else do
+    let l ← (s.splitOn ",").mapM strTok
+    .ok (fun p => l.contains p)
+
+def splitAt (l : List String) : List String × List String :=
+  (l.takeWhile (· ≠ "@"), (l.dropWhile (· ≠ "@")).drop 1)
+
+/-- namespace → record → metaInit, rendered -/
+def recOf (ex : String → Bool) (r : Except ArgErr Namespace) : String :=
+  match r with
+  | .error e => argErrStr e
+  | .ok ns => match Impl.metaInit ex (Impl.toKwargs ns) with
+    | .error e => metaErrStr e
+    | .ok k => s!"kw {kwStr k}"
+
+def valTok (s : String) : Except String Val :=
+  if s = "N" then .ok .none else if s = "T" then .ok (.bool true) else if s = "F" then .ok (.bool false)
+  else match s.toList with
+    | 's' :: ':' :: r => do .ok (.str (← strTok (String.ofList r)))
+    | 'l' :: ':' :: r =>
+      if r.isEmpty then .ok (.list []) else do .ok (.list (← ((String.ofList r).splitOn ",").mapM strTok))
+    | _ => .error s!"bad-val:{s}"
+
+def hexList (s : String) : Except String (List String) :=
+  if s = "-" then .ok [] else (s.splitOn ",").mapM strTok
+
+def tableTok (toks : List String) : Except String Table := do
+  let mut opts : List OptSpec := []
+  let mut pos : String := ""
+  for t in toks do
+    match t.splitOn ":" with
+    | ["p", d] => pos ← strTok d
+    | "o" :: d :: n :: rest =>
+      -- the default value may itself contain one ':' (s:<hex>, l:<hex>)
+      let (dv, ch, fl) ← match rest with
+        | [a, c, f] => pure (a, c, f)
+        | [a, b, c, f] => pure (a ++ ":" ++ b, c, f)
+        | _ => throw s!"bad-opt:{t}"
+      let n ← match n with
+        | "0" => pure Nargs.zero | "1" => pure Nargs.one | "+" => pure Nargs.plus
+        | _ => throw s!"bad-nargs:{t}"
+      opts := opts ++ [⟨← hexList fl, ← strTok d, n, ← valTok dv, ← hexList ch⟩]
+    | _ => throw s!"bad-table-token:{t}"
+  return ⟨opts, pos⟩
 
 def bit (s : String) : Except String Bool :=
   if s = "1" then .ok true else if s = "0" then .ok false else .error s!"bad-bit:{s}"
@@ -143,4 +242,41 @@ def handleG5 : List String → Option (Except String String)
     .ok (opsStr (Impl.recheckOps mf payload))
   | ["ops", "info", mf] => some do .ok (opsStr (Impl.infoOps (← strTok mf)))
   | ["ops", "magnet", mf] => some do .ok (opsStr (Impl.magnetOps (← strTok mf)))
+  | "argparse" :: toks => some do
+    let toks ← toks.mapM strTok
+    .ok (match Impl.argparse Impl.createTable toks with
+      | .error e => argErrStr e
+      | .ok ns => s!"kw {kwStr (Impl.toKwargs ns)}")
+  | "parseconfig" :: rest => some do
+    let (ps, ts) := splitAt rest
+    let ps ← ps.mapM pairTok
+    let ts ← ts.mapM strTok
+    .ok (match Impl.argparse Impl.createTable ts with
+      | .error e => argErrStr e
+      | .ok ns => s!"kw {kwStr (Impl.toKwargs (Impl.parseConfig ps ns))}")
+  | "clirec" :: ex :: toks => some do
+    let ex ← existsTok ex
+    let toks ← toks.mapM strTok
+    .ok (recOf ex (Impl.argparse Impl.createTable toks))
+  | "cfgrec" :: ex :: rest => some do
+    let ex ← existsTok ex
+    let (ps, ts) := splitAt rest
+    let ps ← ps.mapM pairTok
+    let ts ← ts.mapM strTok
+    .ok (recOf ex ((Impl.argparse Impl.createTable ts).map (Impl.parseConfig ps)))
+  | "fields" :: sz :: cwd :: name :: ex :: toks => some do
+    let sz ← natTok sz; let cwd ← strTok cwd; let name ← strTok name
+    let ex ← existsTok ex
+    let toks ← toks.mapM strTok
+    .ok (match Impl.argparse Impl.createTable toks with
+      | .error e => argErrStr e
+      | .ok ns => match Impl.metaInit ex (Impl.toKwargs ns) with
+        | .error e => metaErrStr e
+        | .ok k => match Impl.fields k sz cwd name with
+          | .error e => metaErrStr e
+          | .ok fs => " ".intercalate (fs.map (fun f => s!"{hexStr f.1}={fvStr f.2}")))
+  | "tableok" :: toks => some do
+    let t ← tableTok toks
+    let same := if t = Impl.createTable then "same" else "differs"
+    .ok ((if Impl.tableOK t then "ok " else "fail ") ++ same)
   | _ => none
